@@ -445,3 +445,37 @@ META["C18"] = {
     "note": "Attribution with several carriers accepts any of the session's own carriers (server-side arrival order is not observable from outside).",
     "technique": "property-based testing (rapid): differential oracle, model-based state machine, end-to-end attribution invariant",
 }
+
+
+def R(name, kind, pkg, run, checks, shards=(2, 4), timeout=(600, 3000), **kw):
+    return U(name, kind, pkg, run, checks, shards=shards, timeout=timeout, race=True, **kw)
+
+
+PROPS["C20"] = {
+    "rule": ("The generated workloads of the other checks, re-run in test binaries built with -race: broker herds at timeout boundaries, "
+             "wiring histories and counter bursts on the fake clock (events tied at one instant run genuinely in parallel), a real-time "
+             "load of 24 concurrent proxy/client/answer triples per round through the real HTTP handlers with metrics readers in parallel, "
+             "concurrent log-scrubber writers, redial/queue adapter stress, multi-session carrier churn through the real server (server, "
+             "QueuePacketConn, ClientMap, websocketconn), the client's Peers machine and failing rendezvous with real pion, and proxy session "
+             "sequences with real pion. Oracle: the happens-before race detector; a report counts when both conflicting accesses are in "
+             "non-test code of the repository or its dependencies (harness goroutines are excluded by stack inspection); reports are grouped "
+             "by the unordered pair of source locations. Non-trivial = a workload case in which >= 2 goroutines were inside the component "
+             "(the non-trivial rules of the source units; for the real-time load: >= 2 requests in flight)."),
+    "assumptions": ["the detector sees only the schedules that ran; absence of a report is not absence of a race"],
+    "units": [
+        R("c20_broker_herds", "inpkg", "broker", "^TestVerifC04Herds$", (60, 600)),
+        R("c20_broker_wiring", "inpkg", "broker", "^TestVerifC02Wiring$", (60, 600)),
+        R("c20_broker_counters", "inpkg", "broker", "^TestVerifC19Counters$", (40, 400)),
+        R("c20_broker_load", "inpkg", "broker", "^TestVerifC20BrokerLoad$", (1, 1), shards=(2, 4)),
+        R("c20_safelog", "ext", "c07", "^TestVerifC07Concurrent$", (100, 1000)),
+        R("c20_adapters", "ext", "c17", "^TestVerifC17(Redial|Queue)$", (100, 1000)),
+        R("c20_server", "ext", "c05", "^TestVerifC05Sessions$", (12, 150), shards=(3, 6)),
+        R("c20_peers", "inpkg", "client/lib", "^TestVerifC15(Peers|Rendezvous)$", (40, 400)),
+        R("c20_proxy", "inpkg", "proxy/lib", "^TestVerifC16Sessions$", (15, 150)),
+    ],
+}
+META["C20"] = {
+    "level": "Schedule exploration by load: the other checks' generators drive the components under the happens-before race detector; races are attributed to source-location pairs.",
+    "note": "Only executed schedules are judged; the harness' own goroutines are kept race-free and excluded by stack inspection.",
+    "technique": "generated concurrent workloads (rapid) under the Go race detector as oracle",
+}
